@@ -51,19 +51,19 @@ PROPS = {
     "C01": rt(700, 12000, ["serve-with-params", "serve-user"],
         "random route tables (1-12 routes, shared prefixes, sibling parameter branches, '-' names, interceptors, regexps) after Handle/Remove/Clean histories; "
         "6-30 probes per table (instantiated patterns, mutated paths, raw bytes); non-trivial = a probe that captured parameters or reached a user handler",
-        props=["TreeMatch", "C01text", "C02order", "C01names", "C10tokens"],
+        props=["TreeMatch", "C01text", "C02order", "C01names", "C10tokens", "C03router"],
         level_text="Over EVERY history of Handle/Remove/Clean/Use and every request: C01_dispatch_text(_strong) - the reported node's pattern is the concatenation of the labels on the way down and the request path is the same chain with every label replaced by what it consumed (literal text byte for byte; a value its constraint accepts followed by the label's literal suffix) - from C01_pat_reachable (a child's pattern = parent's pattern ++ label, proved preserved through the CPS add_segment/split, remove, clean, use), C01_labels_reachable (every label is literal text or one {..} token + suffix), C01_idx_lit_reachable (the index jump never lands on a capturing child) and C01_match_children_sound_partial / C01_seg_match_sound. C01_404_exact_params / C01_404_no_new_params: a 404 reports no parameter it did not start with. *_refuted theorems show each side condition is necessary on arbitrary (unreachable) trees.",
         level_note="C01_dispatch_text_wf_partial: the full statement with NO side condition for every history whose registered patterns pass the decidable check hist_wf (every '{'-piece of the pattern contains no second '{'); C01_tokens_imply_pat_wf / C01_dispatch_text_tokens: every pattern the independent tokenizer accepts (the property's well-formed patterns) passes it, so the theorem covers the property's whole quantifier, through C01_names_fresh_reachable_partial (the abandoned child's undo is exact because parameter names along a chain are distinct) and C01_idx_lit_reachable. C01_names_fresh_refuted / C01_dispatch_text_unconditional_refuted: with a '{' inside a token ('{a{b}c/') the library cuts the token in two and the statement is false - outside the property's quantifier. The token-level oracle (independent tokenizer, keys exactly the capturing ones) judges the implementation on every probe.",
         partial=[]),
     "C02": rt(700, 12000, ["serve-with-params", "serve-user"],
         "add-only tables of 1-14 routes in random registration orders incl. >=5 literal siblings; probes as C01, ASCII; the table-only resolver `resolve` (Spec/Resolve.v) is evaluated on every probe",
-        props=["TreeMatch", "C02order", "C02dfs", "C03lit", "C02resolve", "Consts", "PureFuns"],
+        props=["TreeMatch", "C02order", "C02dfs", "C03lit", "C02resolve", "C03router", "Consts", "PureFuns"],
         level_text="C02_shortest_capture: for every matcher function, suffix and path, a parameter takes the SHORTEST accepted value that is followed by its literal suffix (no widening) - all inputs. C02_order_reachable / C02_literal_children_first / C02_sort_node_sorted: in every reachable tree the children of every node are ordered literal < interceptor < regexp < named and every index entry points at a literal child, so depth-first search tries the kinds in the documented priority (proved preserved through registration incl. splits, removal, clean, use). C02_first_successful_child(_precise) / C02_404_iff_all_fail: the answer comes from the FIRST child in search order (indexed literal, then the non-indexed children in kind order) whose subtree matches, every earlier child having failed - falling back, never widening (C02_no_widening, C02_outcome_independent_of_params); C02_kind_priority_no_index, C02_literal_indexed_wins, C02_sort_node_idx_complete. The full refinement 'match on the tree built from a table = outcomes(table)' is stated as the executable resolver Spec/Resolve.v and decided on the implementation on every probe.",
         level_note="partial: kind-priority / first-byte-index / radix-split refinement to the table resolver (Repr invariant) is not proved; it is checked by evaluating the extracted resolver against implementation and model.",
         partial=["C02_priority (refinement tree -> outcomes) not proved"]),
     "C03": rt(350, 6000, ["remove", "clean"],
         "histories of 1-14 mutations (40% Remove/Clean, facades, >=5 literal siblings) with state dump, Routes() and one simple witness per pool pattern after every step",
-        props=["C03", "C03find", "C03lit", "C03frame", "C03gone", "C03witness", "C03abs"],
+        props=["C03", "C03find", "C03lit", "C03frame", "C03gone", "C03witness", "C03abs", "C03router"],
         level_text="At tree level, every reachable tree: C03_find_sound / C03_find_complete (the lookup used by Remove, URL and the duplicate check finds a node spelling the pattern iff one exists), C03_add_registers (an accepted Handle leaves a node with that pattern carrying the methods, OPTIONS and the 405 handler), C03_remove_effect / C03_remove_others_kept (Remove changes exactly the one node it looked up; every other node keeps pattern, handlers and method set), C03_remove_all_clears_partial, C03_absent_not_found; C03_pattern_once_refuted: with literal text containing unbalanced braces two nodes can spell the same pattern (outside the well-formed quantifier). On the abstract route table (C03_remove_frame, C03_remove_all, C03_clean_exact, C03_handle_frame, C03_use_keeps_routes): removal touches exactly the named pattern, Clean(prefix) exactly the patterns with that prefix. Routes()/dispatch of the implementation are compared with this table after every step, with the documented resolver deciding the winner on simple witnesses, and earlier dispatches are re-checked after removals (frame).",
         level_note="partial: the refinement tree-state -> table (abs commutes with add/remove/clean) is checked by the dump correspondence and the oracles on every step, not proved.",
         partial=["C03_refinement (abs_tree (step t op) = table_step (abs_tree t) op) not proved"]),
@@ -75,7 +75,7 @@ PROPS = {
         partial=[]),
     "C05": rt(500, 10000, ["serve", "handle-rejected"],
         "40% malformed / arbitrary-byte patterns, reserved/unknown/duplicate methods, raw paths ('', '*', NUL, 0xff, long), Remove/Clean histories, URL and CheckSyntax on the same strings; every call under recover()",
-        props=["TreeMatch", "C05hist", "C05parse", "C05reg", "Consts"], extra_runs=[("C14", "C05m", 0.4), ("C15", "C05m", 0.3), ("C13", "C05g", 0.3)],
+        props=["TreeMatch", "C05hist", "C05parse", "C05reg", "Consts", "C03router"], extra_runs=[("C14", "C05m", 0.4), ("C15", "C05m", 0.3), ("C13", "C05g", 0.3)],
         level_text="C05_serve_total: for EVERY history of Handle/Remove/Clean/Use from a new tree (any patterns, any methods, rejected calls included) and every request (any method bytes, any path bytes incl. '' and '*'), dispatch returns a handler and never faults - by the invariant tree_safe (index entries in range, 405 handler wherever handlers exist, root answers) proved for new_tree and preserved by tree_add (through the continuation-passing add_segment/split), tree_remove, tree_clean and tree_apply_mw (C05_add_safe, C05_remove_safe, C05_clean_safe, C05_use_safe, C05_handler_total); C05_match_no_panic, C05_build_indexes_ok, C05_sort_node_idx_ok underneath. C05_check_syntax_no_panic / C05_split_no_panic / C05_url_nonstrict_no_panic / C05_mux_url_no_panic: CheckSyntax and URL never fault on ANY byte string; C05_new_segment_panic_iff characterises exactly when the internal NewSegment would fault (a ':' before the first '{' - refuted for arbitrary input, proved unreachable through Split). Every Go fault site of the modelled code is an explicit Panic result in the model, compared with the implementation's recover() classification.",
         level_note="proved for dispatch (C05_serve_total), for registration/removal/cleaning on every reachable table and every byte string (C05_add_never_faults, C05_remove_never_faults, C05_clean_never_faults: Handle either registers or returns an error value; the fuel handed out by tree_add is always sufficient; labels of reachable trees never hit the one input class on which NewSegment faults), for CheckSyntax/URL on every byte string, and for Hosts.Match on every reachable hosts tree (C14_hosts_match_total). Version matchers are total by construction (no partial operation in the model); net/http glue (request construction, ResponseWriter) is exercised, not proved.",
         partial=[]),
@@ -128,7 +128,7 @@ PROPS = {
         level_note="Hosts members are assumed 'clean' (a rejection leaves the parameters alone). For every reachable Hosts tree this is PROVED when the context is empty (C13_hosts_clean_empty_ctx: the case Group dispatch produces for a top-level Hosts matcher) and when the tree's parameter names and the empty name are not keys of the context (C13_hosts_clean_when_disjoint_partial); C13_hosts_clean_unconditional_refuted shows the disjointness condition is necessary (an incoming parameter with the same name as a domain parameter is deleted by the backtracking undo). Custom matchers are outside the model."),
     "C14": rt(300, 5000, ["hmatch-accept"],
         "Add/Delete/RegisterInterceptor histories over >=6 literal domains + parameterised domains in mixed case; hosts in any case, with ports, brackets, invalid ports, '', '*'; dump after every step",
-        suite="C14", props=["C14", "C14tree"],
+        suite="C14", props=["C14", "C14tree", "C14resolve"],
         level_text="C14_normalise_is_lower, C14_strip_port_valid/_invalid, C14_strip_brackets, C14_add_ci, C14_delete_ci, C14_match_uses_normalised; matching itself is the shared tree (C01/C02 theorems).",
         level_note="partial: resolution of the normalised host against the registered domains is decided by the extracted resolver on add-only histories and simple witnesses; non-ASCII hosts are outside the model (strings.ToLower is Unicode-aware)."),
     "C15": rt(300, 5000, ["pv-accept", "hv-accept"],
@@ -154,7 +154,7 @@ PROPS = {
         level_note="httputil.DumpRequest and html.EscapeString are parameters of C18_trace_helper."),
     "C19": rt(300, 5000, ["handle-ok"],
         "programs of facade calls (Prefix/Prefix.Prefix/Resource with middlewares, Handle, Remove, Clean, URL; empty prefixes, prefixes ending inside a token) run as written and desugared to Router calls on a twin router",
-        suite="C19", props=["C19"],
+        suite="C19", props=["C19", "C03router"],
         level_text="C19_prefix_handle, C19_nested_prefix_handle, C19_resource_handle, C19_prefix_remove/_clean/_url, C19_resource_remove/_clean/_url, C19_prefix_clean_table: every facade call equals the Router call on the concatenated pattern and middleware list.",
         level_note="near-definitional in the model; the weight is on the three-way differential (implementation facade run vs implementation desugared run vs model)."),
     "C20": {
